@@ -109,8 +109,14 @@ def _worker(args):
     try:
         env.clear_caches()
         mod.run_shard(desc, acc, tier)
-    except BaseException as e:  # harness bug inside a shard: report, do not hide
-        return {"error": "".join(traceback.format_exception(type(e), e, e.__traceback__))[-4000:], "desc": repr(desc)}
+    except BaseException as e:
+        # An exception that escapes a check while it executes or judges a library answer: on the unchanged tree no shard raises, so this
+        # means the library handed back something the oracle cannot even read (a value of another type or shape). That is a violation
+        # with the shard as its replayable case, not a reason to stop the run.
+        tb = "".join(traceback.format_exception(type(e), e, e.__traceback__))
+        acc.violation(None, {"shard": list(desc) if isinstance(desc, (list, tuple)) else desc, "tier": tier},
+                      {"what": "the check could not judge what the library returned (exception while executing / reading an answer)",
+                       "exc": repr(e)[:300], "where": tb[-1500:]})
     out = acc.export()
     out["wall"] = time.time() - t0
     out["pid"] = os.getpid()
@@ -277,7 +283,13 @@ def replay(pid, mod, path):
     for _ in range(2):   # replay twice, identical observations required
         acc = Acc()
         env.clear_caches()
-        mod.replay(case, acc)
+        if isinstance(case, dict) and "shard" in case and "tier" in case and len(case) == 2:
+            try:
+                mod.run_shard(tuplify(case["shard"]), acc, case["tier"])
+            except BaseException as e:
+                acc.violation(None, case, {"what": "the check could not judge what the library returned (exception while executing / reading an answer)", "exc": repr(e)[:300]})
+        else:
+            mod.replay(case, acc)
         outs.append(acc.export())
     if outs[0]["digest"] != outs[1]["digest"]:
         print("HARNESS-ERROR: replay is not deterministic")
